@@ -165,6 +165,7 @@ func init() {
 				var err error
 				human := fmt.Sprintf("%s with a reader that %s", c20OpNames[op], beh)
 				var parent *biscuit.Biscuit
+				var parentBytes []byte
 				if op == c20Append || op == c20Seal {
 					b := biscuit.NewBuilder(priv, biscuit.WithRNG(hx.NewRNG(3)))
 					hx.FillBuilder(b, poolP)
@@ -173,6 +174,7 @@ func init() {
 						w.Violate("C20:setup-failed", human, err.Error(), "a parent token")
 						return
 					}
+					parentBytes, _ = parent.Serialize()
 				}
 				r, stack := sup.Catch(func() {
 					switch op {
@@ -203,6 +205,31 @@ func init() {
 				}
 				if beh.budget >= 0 || beh.chunk > 0 || beh.shortAt >= 0 {
 					w.NontrivialByIndex()
+				}
+				// whatever the outcome, the token the operation was applied to is what it was: it still
+				// verifies, serializes to the same bytes, and can be extended with a healthy source
+				if parent != nil {
+					if _, e := parent.AuthorizerFor(biscuit.WithSingularRootPublicKey(pub), hx.LongLimits); e != nil {
+						w.Class("parent-damaged")
+						w.Violate("C20:parent-token-damaged-by-"+map[int]string{c20Append: "append", c20Seal: "seal"}[op], human, "the parent no longer verifies: "+e.Error(), "unchanged")
+						return
+					}
+					if now, _ := parent.Serialize(); !bytes.Equal(now, parentBytes) {
+						w.Class("parent-damaged")
+						w.Violate("C20:parent-token-damaged-by-"+map[int]string{c20Append: "append", c20Seal: "seal"}[op], human, fmt.Sprintf("the parent now serializes to %x", now), fmt.Sprintf("%x", parentBytes))
+						return
+					}
+					bb := parent.CreateBlock()
+					hx.FillBlock(bb, poolQ)
+					retry, e := parent.Append(hx.NewRNG(77), bb.Build())
+					if e == nil {
+						_, e = retry.AuthorizerFor(biscuit.WithSingularRootPublicKey(pub), hx.LongLimits)
+					}
+					if e != nil {
+						w.Class("parent-damaged")
+						w.Violate("C20:append-with-a-healthy-source-fails-afterwards", human, e.Error(), "a token that verifies")
+						return
+					}
 				}
 				if op == c20Seal {
 					if err != nil || tok == nil {
